@@ -374,6 +374,9 @@ def run_case(case):
                 S("nametoindex", p.call("i", "SDnametoindex", V("sd"), "alpha"), 0)
                 S("nametoindex", p.call("i", "SDnametoindex", V("sd"), "beta"), 1)
                 S("nametoindex_missing", p.call("i", "SDnametoindex", V("sd"), "nosuch"))
+                for di_, nm_ in ((0, "alpha"), (1, "beta")):
+                    S("numvars", p.call("i", "SDgetnumvars_byname", V("sd"), nm_, Out(4)), di_)
+                    S("nametoindices", p.call("i", "SDnametoindices", V("sd"), nm_, Out(8)), di_)
         close_all()
         open_all(False)
         S("reopened", None)
@@ -548,6 +551,15 @@ def run_case(case):
                     if ("ref", a[0]) in sds_index and sds_index[("ref", a[0])] != r.ret:
                         raise Fail("name->index and ref->index disagree", dataset=a[0],
                                    by_ref=sds_index[("ref", a[0])], by_name=r.ret)
+                elif role == "numvars":
+                    if r.ret != 0 or un_i32s(r.bufs[0])[0] != 1:
+                        raise Fail("SDgetnumvars_byname does not report exactly one variable for a dataset name no "
+                                   "dimension uses", ret=r.ret, observed=un_i32s(r.bufs[0])[0])
+                elif role == "nametoindices":
+                    got = un_i32s(r.bufs[0])
+                    if r.ret != 0 or got[1] != 0 or (("ref", a[0]) in sds_index and sds_index[("ref", a[0])] != got[0]):
+                        raise Fail("SDnametoindices disagrees with SDreftoindex / does not report a dataset", ret=r.ret,
+                                   observed=list(got), by_ref=sds_index.get(("ref", a[0])))
                 elif role == "nametoindex_missing":
                     if r.ret != -1:
                         raise Fail("SDnametoindex found a dataset that does not exist", observed=r.ret)
